@@ -7,7 +7,10 @@ import (
 
 	"github.com/pip-services3-gox/pip-services3-expressions-gox/calculator"
 	"github.com/pip-services3-gox/pip-services3-expressions-gox/calculator/functions"
+	cparsers "github.com/pip-services3-gox/pip-services3-expressions-gox/calculator/parsers"
 	"github.com/pip-services3-gox/pip-services3-expressions-gox/mustache"
+	mparsers "github.com/pip-services3-gox/pip-services3-expressions-gox/mustache/parsers"
+	"github.com/pip-services3-gox/pip-services3-expressions-gox/tokenizers"
 	"github.com/pip-services3-gox/pip-services3-expressions-gox/variants"
 	"pgregory.net/rapid"
 	"verif/pbt/evid"
@@ -311,7 +314,7 @@ func mutateText(t *rapid.T, s string, hostile []string) string {
 	return string(rs)
 }
 
-var c03HostileExpr = []string{"'", "\"", "\"\"", "''", "(", ")", "[", "]", ",", "/", "/*", "*/", "//", "-", "--", ".", "..", "1e", "e", "<", "<<", "<<-1", "[9]", "[-1]", "/0", "%0", " NOT ", " IN ", " IS ", " NULL", " LIKE ", "é", "中", "😀", "\x00", "\n", "'é'", "1/0", "^", "9999999999999999999999", "￿"}
+var c03HostileExpr = []string{" l\u0131ke ", " \u0131s ", " \u0131n ", " i\u017f null", " \u212a ", "nu\u0131l", " \u0130n ", "\ufeff", "\u00a0", "'", "\"", "\"\"", "''", "(", ")", "[", "]", ",", "/", "/*", "*/", "//", "-", "--", ".", "..", "1e", "e", "<", "<<", "<<-1", "[9]", "[-1]", "/0", "%0", " NOT ", " IN ", " IS ", " NULL", " LIKE ", "é", "中", "😀", "\x00", "\n", "'é'", "1/0", "^", "9999999999999999999999", "￿"}
 var c03HostileTmpl = []string{"{{", "}}", "{{{", "}}}", "{", "}", "#", "/", "^", "!", "if", "unless", "'", "\"", " ", "😀", "{{#a}}", "{{/a}}", "{{/if}}", "{{^a}}", "{{! ", "￿", "\x00"}
 
 func TestC03_RapidExpressions(t *testing.T) {
@@ -427,7 +430,7 @@ func FuzzC03_Expr(f *testing.F) {
 		f.Add(s, uint8(0))
 	}
 	f.Fuzz(func(t *testing.T, s string, k uint8) {
-		if len(s) > 4096 {
+		if len(s) > 1<<16 {
 			t.Skip()
 		}
 		c := c03Expr{string([]rune(s)), c03Assignments[int(k)%len(c03Assignments)]}
@@ -440,7 +443,7 @@ func FuzzC03_Template(f *testing.F) {
 		f.Add(s)
 	}
 	f.Fuzz(func(t *testing.T, s string) {
-		if len(s) > 4096 {
+		if len(s) > 1<<16 {
 			t.Skip()
 		}
 		c := c03Tmpl{string([]rune(s)), map[string]string{"a": "1", "B": "", "name": "x/\"y"}}
@@ -454,7 +457,7 @@ func FuzzC03_Tokenize(f *testing.F) {
 		f.Add(s, uint8(1), uint8(127))
 	}
 	f.Fuzz(func(t *testing.T, s string, k uint8, o uint8) {
-		if len(s) > 4096 {
+		if len(s) > 1<<16 {
 			t.Skip()
 		}
 		c := c03Tok{tokKinds[int(k)%4], int(o) % (optAll + 1), string([]rune(s))}
@@ -467,7 +470,7 @@ func FuzzC03_Decode(f *testing.F) {
 		f.Add(s, uint8(0), uint8(0))
 	}
 	f.Fuzz(func(t *testing.T, s string, st uint8, q uint8) {
-		if len(s) > 4096 {
+		if len(s) > 1<<16 {
 			t.Skip()
 		}
 		c := c03Dec{c14States[int(st)%3], c14Quotes[int(q)%len(c14Quotes)], string([]rune(s))}
@@ -554,4 +557,61 @@ func TestC03_EnumFailingFunctions(t *testing.T) {
 			}
 		}
 	}
+}
+
+// ---- target 7: caller-supplied token lists ---------------------------------------------------------------
+
+type c03Tokens struct {
+	Types  []int    `json:"types"`
+	Values []string `json:"values"`
+}
+
+func checkC03Tokens(c c03Tokens) *evid.Fail {
+	mk := func() []*tokenizers.Token {
+		out := make([]*tokenizers.Token, len(c.Types))
+		for i := range c.Types {
+			out[i] = tokenizers.NewToken(c.Types[i], c.Values[i], 1, i+1)
+		}
+		return out
+	}
+	if g := guard(func() {
+		p := cparsers.NewExpressionParser()
+		p.ParseTokens(mk())
+		p.SetOriginalTokens(mk())
+		calc := calculator.NewExpressionCalculator()
+		calc.SetOriginalTokens(mk())
+		if v, err := calc.Evaluate(); v == nil && err == nil {
+			panic("Evaluate returned neither a result nor an error")
+		}
+		mp := mparsers.NewMustacheParser()
+		mp.ParseTokens(mk())
+		mt := mustache.NewMustacheTemplate()
+		if mt.SetOriginalTokens(mk()) == nil {
+			mt.EvaluateWithVariables(map[string]string{"a": "1"})
+		}
+	}); g != nil {
+		g.Msg = fmt.Sprintf("token list %v %q: %s", c.Types, c.Values, g.Msg)
+		return g
+	}
+	return nil
+}
+
+func init() { regReplay("C03.tokens", checkC03Tokens) }
+
+func TestC03_RapidTokenLists(t *testing.T) {
+	rec := evid.New("C03", "TestC03_RapidTokenLists", "C03.tokens", c03Rule+"; caller-supplied token lists (any token type with any text) through ParseTokens / SetOriginalTokens of the expression parser, the calculator, the mustache parser and the template")
+	defer finish(t, rec)
+	texts := []string{"", "a", "AND", "and", "Foo", "NULL", "IS", "NOT", "LIKE", "TRUE", "lıke", "1", "1.5", "x y", "(", ")", "[", "]", ",", "+", "-", "<>", "!=", "<<", "{{", "}}", "{{{", "}}}", "#", "/", "^", "!", "if", "unless", " ", "'s'", "\"q\"", "/* c */", "😀"}
+	runRapid(t, pick(30000, 200000), 33333, func(rt *rapid.T) {
+		n := rapid.IntRange(0, 10).Draw(rt, "n")
+		var c c03Tokens
+		for i := 0; i < n; i++ {
+			c.Types = append(c.Types, rapid.IntRange(0, 14).Draw(rt, "type"))
+			c.Values = append(c.Values, rapid.SampledFrom(texts).Draw(rt, "text"))
+		}
+		rec.Case(jsonStr(c), n >= 2, func() interface{} { return c })
+		if f := checkC03Tokens(c); f != nil && rec.Fail(f, c) {
+			rt.Fatalf("%v", f)
+		}
+	})
 }
